@@ -125,6 +125,8 @@ FAILS = {
     "dsfail": e2e.ds_fail() + ["STOP"],
     "revert": e2e.revert0(),
     "invalid": ["INVALID"],
+    # revert Panic(x): the panic code is the (symbolic) first argument
+    "panicx": [("pushn", 4, e2e.PANIC_SEL), ("push", 224), "SHL", "PUSH0", "MSTORE"] + X + [("push", 4), "MSTORE", ("push", 36), "PUSH0", "REVERT"],
 }
 FAIL_KINDS = ["panic1", "panic11", "assert", "dsfail", "revert", "invalid"]
 
